@@ -194,6 +194,17 @@ def t_r3(p: Project, rep: Report):
                 for i, (pth, rtxt, sc) in enumerate(rps):
                     n += 1
                     ok = "self.enforce_length(" in rtxt or rtxt == "self.enforce_required(None)"
+                    if ok and rtxt != "self.enforce_required(None)" and name in ("String", "NagString"):
+                        # the checked value is what is returned: enforce_length(...) is the WHOLE returned expression (a
+                        # slice / strip / replace applied afterwards returns something other than what was checked)
+                        try:
+                            top = ast.parse(rtxt, mode="eval").body
+                        except SyntaxError:
+                            top = None
+                        whole = isinstance(top, ast.Call) and text(top.func) == "self.enforce_length"
+                        if top is not None and not whole:
+                            rep.check("T-R3", f"{name}.{famname}[{key}]:return#{i}", False, f"{h.qualname}: a path returns {rtxt[:80]}: the value is altered AFTER the length check (e.g. clipped to the limit), so what is returned is not the value that was given", tloc(p, h.fn))
+                            continue
                     rep.check("T-R3", f"{name}.{famname}[{key}]:return#{i}", ok, f"{h.qualname}: a path returns {rtxt[:80]}, which did not pass enforce_length" if not ok else "", tloc(p, h.fn))
     ci = scal["OneOf"]
     for famname in ("convert", "unconvert"):
@@ -406,6 +417,38 @@ def t_r6(p: Project, rep: Report):
         if not known and ok is False:
             pass
         rep.check("T-R6", "Decimal.unconvert[decimal.Decimal]:same-quantum", ok, "the writer does not refuse values whose exponent differs from the declared scale" if not ok else "", tloc(p, h.fn))
+
+
+def t_r6b_no_context_arithmetic(p: Project, rep: Report):
+    """the decimal converters never apply context arithmetic to the value"""
+    rep.rule("T-R6b", "decimal values pass through the converters digit for digit: no returning path of a Decimal reader or writer applies an arithmetic operator (unary +/-, binary + - * /, abs, round, normalize) to the value - arithmetic rounds to the ambient decimal context (28 significant digits by default), so longer values are silently changed; quantize(self.scale) is the only permitted operation")
+    scal, _ = scalar_types(p)
+    ci = scal["Decimal"]
+    n = 0
+    for famname in ("convert", "unconvert"):
+        fam = D.family(ci, famname)
+        for key, h in fam.table.items():
+            if key in ("None", D.DEFAULT) or h.always_raises():
+                continue
+            vp = h.value_param()
+            rps, _ = h.return_paths()
+            for i, (pth, rtxt, sc) in enumerate(rps):
+                try:
+                    v = ast.parse(rtxt, mode="eval").body
+                except SyntaxError:
+                    continue
+                n += 1
+                bad = None
+                for x in ast.walk(v):
+                    if isinstance(x, ast.UnaryOp) and isinstance(x.op, (ast.UAdd, ast.USub)) and not isinstance(x.operand, ast.Constant):
+                        bad = text(x)
+                    elif isinstance(x, ast.BinOp) and isinstance(x.op, (ast.Add, ast.Sub, ast.Mult, ast.Div)) and any(isinstance(y, ast.Name) and y.id == vp or (isinstance(y, ast.Call) and text(y.func).endswith("Decimal")) for y in ast.walk(x)) and not any(isinstance(y, ast.Constant) and isinstance(y.value, str) for y in (x.left, x.right)):
+                        bad = text(x)
+                    elif isinstance(x, ast.Call) and (text(x.func) in ("abs", "round") or (isinstance(x.func, ast.Attribute) and x.func.attr in ("normalize", "__pos__", "__neg__", "__abs__", "to_integral_value"))):
+                        bad = text(x)
+                rep.check("T-R6b", f"Decimal.{famname}[{key}]:return#{i}:no-arithmetic", bad is None, f"{h.qualname} returns {rtxt[:60]}: `{bad[:40] if bad else ''}` is decimal arithmetic and rounds the value to the context precision" if bad else "", tloc(p, h.fn))
+    if n == 0:
+        rep.note("T-R6b undecided: no returning path in the Decimal converters")
 
 
 def t_r7(p: Project, rep: Report):
